@@ -46,7 +46,7 @@ a_kinds! {
     // Blocking consumers (exercise wake-ups of event streams).
     EventWaiter, ListenerWaiter, DiscWaiter, LifetimeWaiter,
     // Deterministic rounds with exact expectations (C04 / C10 at API level).
-    EventRound, ListenerRound,
+    EventRound, ListenerRound, ClaimTwiceRound,
     // The client's introspection API.
     IntroRegister, IntroQuery,
 }
